@@ -180,7 +180,10 @@ class G:
         if k in ("DGet", "DContains"):
             return (k, self.dkey(d))
         if k == "DGetDefault":
-            return (k, self.dkey(d), self.scalar(True))
+            # the default may be a container (it must come back as it is and must NOT be stored)
+            dflt = self.scalar(True) if self.r.random() < 0.5 else self.r.choice([{}, [], {"d": [1]}, [{"e": 2}]])
+            key = self.dkey(d) if self.r.random() < 0.5 else self.r.choice(["absent", "zz_missing"])
+            return (k, key, dflt)
         if k == "DEq":
             return (k, copy.deepcopy(d) if self.r.random() < 0.5 else self.value(2, True))
         return (k,)
